@@ -223,23 +223,70 @@ func (g *gen) filler(inFunc bool) []zn.Stmt {
 	return out
 }
 
-func (g *gen) faultStmt() (zn.Stmt, string) {
-	switch g.pick(7, "fault") {
+// faultStmt - the planted fault: pre (declarations it needs), act (the statement the report
+// must name) and a description
+func (g *gen) faultStmt() ([]zn.Stmt, zn.Stmt, string) {
+	g.n++
+	cnt := fmt.Sprintf("计%d", g.n)
+	div := func(den zn.Expr) zn.Expr {
+		return &zn.Bin{Op: ">", L: &zn.Bin{Op: "/", L: num(10), R: &zn.Grp{E: den}}, R: num(0)}
+	}
+	switch g.pick(11, "fault") {
 	case 0:
-		return &zn.Let{Names: []string{"坏"}, E: &zn.Bin{Op: "/", L: num(1), R: num(0)}}, "division by zero"
+		return nil, &zn.Let{Names: []string{"坏"}, E: &zn.Bin{Op: "/", L: num(1), R: num(0)}}, "division by zero"
 	case 1:
-		return show(v("未知名")), "undefined name"
+		return nil, show(v("未知名")), "undefined name"
 	case 2:
-		return show(&zn.Index{Root: &zn.ListLit{Items: []zn.Expr{num(1)}}, Idx: num(5)}), "index out of range"
+		return nil, show(&zn.Index{Root: &zn.ListLit{Items: []zn.Expr{num(1)}}, Idx: num(5)}), "index out of range"
 	case 3:
-		return &zn.Throw{Class: "异常", Args: []zn.Expr{&zn.Str{V: "故障"}}}, "uncaught 抛出"
+		return nil, &zn.Throw{Class: "异常", Args: []zn.Expr{&zn.Str{V: "故障"}}}, "uncaught 抛出"
 	case 4:
-		return &zn.Return{E: &zn.Bin{Op: "+", L: num(1), R: &zn.Str{V: "文"}}}, "type error in 输出"
+		return nil, &zn.Return{E: &zn.Bin{Op: "+", L: num(1), R: &zn.Str{V: "文"}}}, "type error in 输出"
 	case 5:
 		g.labels["fault-in-native-method"] = true
-		return show(&zn.MCall{Root: &zn.Str{V: "abc"}, Chain: []zn.Call{{Name: "取样", Args: []zn.Expr{num(-9), num(1)}}}}), "failing built-in method"
+		return nil, show(&zn.MCall{Root: &zn.Str{V: "abc"}, Chain: []zn.Call{{Name: "取样", Args: []zn.Expr{num(-9), num(1)}}}}), "failing built-in method"
+	case 6:
+		return nil, &zn.ExprStmt{E: &zn.Assign{Target: &zn.Index{Root: v("无此表"), Idx: num(1)}, E: num(2)}}, "assignment to an undefined name"
+	case 7, 8:
+		// the condition of a 每当 fails when it is tested for the third time: the statement
+		// being executed is the loop, not the last statement of its body
+		g.labels["fault-in-loop-condition-later-pass"] = true
+		body := []zn.Stmt{&zn.ExprStmt{E: &zn.Assign{Target: v(cnt), E: &zn.Bin{Op: "+", L: v(cnt), R: num(1)}}}}
+		if g.pick(2, "wcall") == 0 {
+			body = append(body, show(&zn.Call{Name: "完成", Args: []zn.Expr{v(cnt)}}))
+		} else {
+			body = append(body, show(v(cnt)))
+		}
+		return []zn.Stmt{&zn.Let{Names: []string{cnt}, E: num(0)}}, &zn.While{Cond: div(&zn.Bin{Op: "-", L: num(2), R: v(cnt)}), Body: body}, "division by zero in a 每当 condition (third test)"
+	case 9:
+		g.labels["fault-in-branch-condition"] = true
+		return nil, &zn.If{Conds: []zn.Expr{div(num(0))}, Blocks: [][]zn.Stmt{{show(&zn.Str{V: "到不了"})}}, Else: []zn.Stmt{show(&zn.Str{V: "到不了"})}}, "division by zero in a 如果 condition"
 	default:
-		return &zn.ExprStmt{E: &zn.Assign{Target: &zn.Index{Root: v("无此表"), Idx: num(1)}, E: num(2)}}, "assignment to an undefined name"
+		g.labels["fault-in-iterated-expression"] = true
+		return nil, &zn.ForEach{Names: []string{"值"}, E: &zn.Index{Root: &zn.ListLit{Items: []zn.Expr{num(1)}}, Idx: num(5)}, Body: []zn.Stmt{show(v("值"))}}, "index error in the expression a 遍历 iterates"
+	}
+}
+
+// wrap - put the active statement inside blocks (branches, loops on their n-th pass): the
+// reported line stays the line of the active statement itself
+func (g *gen) wrap(act zn.Stmt) zn.Stmt {
+	g.n++
+	switch g.pick(7, "wrap") {
+	case 0:
+		g.labels["active-statement-in-branch"] = true
+		return &zn.If{Conds: []zn.Expr{&zn.BoolLit{V: false}, &zn.BoolLit{V: true}}, Blocks: [][]zn.Stmt{{show(&zn.Str{V: "不执行"})}, {show(&zn.Str{V: "分支"}), act}}, Else: []zn.Stmt{show(&zn.Str{V: "不执行"})}}
+	case 1:
+		g.labels["active-statement-in-loop"] = true
+		return &zn.While{Cond: &zn.BoolLit{V: true}, Body: []zn.Stmt{show(&zn.Str{V: "循环"}), act, &zn.Break{}}}
+	case 2:
+		// third pass of a 遍历: earlier passes run other lines of the body
+		g.labels["active-statement-in-later-pass"] = true
+		return &zn.ForEach{Names: []string{"值"}, E: &zn.ListLit{Items: []zn.Expr{num(1), num(2), num(3)}}, Body: []zn.Stmt{
+			&zn.If{Conds: []zn.Expr{&zn.Bin{Op: "==", L: v("值"), R: num(3)}}, Blocks: [][]zn.Stmt{{act}}},
+			show(&zn.Str{V: "一轮"}, v("值")),
+		}}
+	default:
+		return act
 	}
 }
 
@@ -316,7 +363,9 @@ func TestRuntimeFaults(t *testing.T) {
 			body = append(body, g.filler(i > 0)...)
 			var act zn.Stmt
 			if i == depth {
-				act, fault = g.faultStmt()
+				var pre []zn.Stmt
+				pre, act, fault = g.faultStmt()
+				body = append(body, pre...)
 			} else {
 				var call zn.Expr = &zn.Call{Name: fmt.Sprintf("层%d", i+1), Args: []zn.Expr{num(float64(i))}}
 				if useMethod[i+1] {
@@ -334,7 +383,7 @@ func TestRuntimeFaults(t *testing.T) {
 				}
 			}
 			active[i] = act
-			body = append(body, act)
+			body = append(body, g.wrap(act))
 			body = append(body, g.filler(i > 0)...)
 			body = append(body, show(&zn.Str{V: "到不了这里"}))
 			var catches []zn.Catch
